@@ -197,6 +197,27 @@ def fresh_state(chk: Check) -> None:
             chk.fail(rule, name, f"{name}.__init__:shared-field:{path.split('.')[1] if '.' in path else path}", f"two instances of {name} share the mutable object at {path}: state of one stream/parser leaks into another")
         else:
             chk.ok(rule, name, {"mutable_objects_per_instance": len(ra_)})
+    # two streams / decoders built from ONE caller-owned options object: whatever pyjelly creates for one of
+    # them must not be reachable from the other (the options object itself is the caller's and is excluded)
+    for sc in ("TripleStream", "QuadStream", "GraphStream"):
+        for label, mk_opts in (("default options", lambda: k.options()), ("non-delimited", lambda: k.options(params=k.params(delimited=False))), ("grouped", lambda sc=sc: k.options(logical_type=3 if sc == "TripleStream" else 4))):
+            for factory in ("ctor", "for_rdflib"):
+                opts = mk_opts()
+                pre = set(mutable_reach(opts, set()))
+                if factory == "ctor":
+                    a = k.stream(sc, k.new(K.EN, "TermEncoder"), opts)
+                    b = k.stream(sc, k.new(K.EN, "TermEncoder"), opts)
+                else:
+                    a = k.method(k.get(K.ST, sc), "for_rdflib", opts)
+                    b = k.method(k.get(K.ST, sc), "for_rdflib", opts)
+                ra_, rb_ = mutable_reach(a, pre), mutable_reach(b, pre)
+                common = set(ra_) & set(rb_)
+                name = f"pyjelly.serialize.streams.{sc} x2 from one SerializerOptions ({label}, {factory})"
+                if common:
+                    path = ra_[next(iter(common))]
+                    chk.fail(rule, name, f"pyjelly.serialize.streams.Stream.__init__:shared-via-options:{path.split('.')[1] if '.' in path else path}", f"two streams built from the same options object share the mutable object at {path} (rows/state of one stream leak into the other)")
+                else:
+                    chk.ok(rule, name, None)
     if it.decisions:
         raise AnalysisError("C12.fresh-instance-state: unexpected undecided branch while constructing objects")
 
